@@ -731,6 +731,24 @@ class Interp(StmtMixin, ExtMixin, OpsMixin, InterpCore):
         from .model import ExternalClass
         return isinstance(v, InstV) and any(isinstance(c, ExternalClass) and c.name.endswith("ObjectProxy") for c in v.ci.mro())
 
+    def hasattr(self, base, attr):
+        if self.is_proxy(base):
+            from .model import ClassInfo
+            if attr in base.attrs:
+                return not isinstance(base.attrs[attr], Undefined)
+            if any(isinstance(c, ClassInfo) and (attr in c.methods or attr in c.class_attrs) for c in base.ci.mro()):
+                return True
+            if attr.startswith("_self_"):
+                return False
+            # wrapt.ObjectProxy: everything else is looked up on (and was stored on) the wrapped object
+            w = base.attrs.get("__wrapped__")
+            if w is None:
+                raise AnalysisError("proxy used before initialisation")
+            if (w.key(), attr) in self.proxy_store:
+                return True
+            return self.hasattr(w, attr)
+        return OpsMixin.hasattr(self, base, attr)
+
     def setattr(self, base, attr, val, node=None):
         if self.is_proxy(base) and not attr.startswith("_self_") and attr != "__wrapped__":
             w = base.attrs.get("__wrapped__")
